@@ -55,6 +55,38 @@ def per_rate(name):
       rec.fail(f"frames-label@{name}", "from_frames==SMPTE label; round trip",
                f"from_frames({n}, {name}) = {lab}, SMPTE label {smpte.label(n, rate)}, to_frames {tc.to_frames()}", {"rate": name, "n": n},
                replayer="replayers.c12:frames_label", replay_args={"rate": name, "model": {"n": str(n)}})
+  # the factories return fresh, independent objects: mutating one result (add_frames) must not change what the factory returns later
+  for i in range(300 if quick else 5000):
+    k = r.randrange(0, 24 * 3600 * nom)
+    n = r.choice([1, 2, 10, 1799, 17982, r.randrange(1, 100000)])
+    a = SmpteTimeCode.from_frames(k, rate)
+    b = SmpteTimeCode.from_frames(k, rate)
+    a.add_frames(n)
+    c = SmpteTimeCode.from_frames(k, rate)
+    d = SmpteTimeCode.from_seconds(Fraction(k) / rate, rate)
+    d.add_frames(n)
+    e = SmpteTimeCode.from_seconds(Fraction(k) / rate, rate)
+    ok = a is not b and a is not c and d is not e and a.to_frames() == k + n and b.to_frames() == k and c.to_frames() == k and \
+        e.to_frames() == k and d.to_frames() == k + n and \
+        (c.get_hours(), c.get_minutes(), c.get_seconds(), c.get_frames()) == smpte.label(k, rate)
+    rec.evaluated("factory results are fresh and independent of earlier mutation", (name, k, n), {"rate": name, "k": k, "n": n})
+    if not ok:
+      rec.fail(f"factory-result-aliased@{name}", "factory results are fresh and independent of earlier mutation",
+               f"from_frames({k}, {name}) after add_frames({n}) on an earlier result: frames a={a.to_frames()} b={b.to_frames()} c={c.to_frames()} "
+               f"(expected {k + n}, {k}, {k}); from_seconds twice: {d.to_frames()}, {e.to_frames()}; same object: {a is b or a is c or d is e}",
+               {"rate": name, "k": k, "n": n})
+  # n single additions equal one addition of n (natively, as a cross-check of the lemma used by the proof tier)
+  for i in range(60 if quick else 600):
+    k = r.randrange(0, 3 * 3600 * nom)
+    n = r.randrange(0, 400)
+    a = SmpteTimeCode.from_frames(k, rate)
+    b = SmpteTimeCode.from_frames(k, rate)
+    a.add_frames(n)
+    for _ in range(n):
+      b.add_frames()
+    rec.evaluated("n single additions == one addition of n", (name, k, n), None)
+    if not a == b or a.to_frames() != k + n:
+      rec.fail(f"add-frames-n-vs-singles@{name}", "n single additions == one addition of n", f"k={k} n={n}: {a} vs {b}", {"rate": name, "k": k, "n": n})
   # float arguments of from_seconds: a float is a rational, the frame that contains it is floor(Fraction(x) * rate)
   pts = 3000 if quick else 40000
   for i in range(pts):
